@@ -46,7 +46,7 @@ class BaseComparam(IdentifiableElement):
             cptype = cast(StandardizationLevel, None)
             odxraise(f"Encountered unknown CPTYPE '{cptype_str}'")
 
-        dl = et_element.attrib.get("DISPLAY_LEVEL")
+        dl = et_element.attrib.get("DISPLAY-LEVEL")
         display_level = None if dl is None else int(dl)
 
         # Required in ODX 2.2, missing in ODX 2.0
